@@ -45,8 +45,41 @@ def cases():
             yield {"is_buy": is_buy, "orders": list(triple)}
 
 
+def check_ctor(spec):
+    """Order.__init__: a limit order needs a price, a market order must not carry one; volume and time-to-live must be positive (else ValueError); the fields are stored as given"""
+    kw = dict(agent_id=1, market_id=2, is_buy=spec["is_buy"], kind=LIMIT_ORDER if spec["limit"] else MARKET_ORDER, volume=spec["volume"], price=spec["price"], ttl=spec["ttl"])
+    bad = spec["volume"] <= 0 or (spec["ttl"] is not None and spec["ttl"] <= 0) or (spec["limit"] and spec["price"] is None) or (not spec["limit"] and spec["price"] is not None)
+    try:
+        import warnings
+        with warnings.catch_warnings():
+            warnings.simplefilter("ignore")
+            o = Order(**kw)
+    except ValueError:
+        return None if bad else f"Order({kw}) is admissible but was refused"
+    if bad:
+        return f"Order({kw}) was constructed although volume / time-to-live must be positive and a price is required exactly for limit orders"
+    if (o.volume, o.ttl, o.price, o.is_buy, o.agent_id, o.market_id, o.placed_at, o.order_id, o.is_canceled) != (spec["volume"], spec["ttl"], spec["price"], spec["is_buy"], 1, 2, None, None, False):
+        return f"Order({kw}) does not store the values it was given"
+    return None
+
+
+def ctor_cases():
+    for is_buy in (True, False):
+        for limit in (True, False):
+            for volume in (-1, 0, 1, 5):
+                for ttl in (None, -1, 0, 1, 3):
+                    for price in (None, 10.0, 0.5):
+                        yield {"ctor": True, "is_buy": is_buy, "limit": limit, "volume": volume, "ttl": ttl, "price": price}
+
+
 def search(seed, tier, obligation, hints):
     n = 0
+    if (obligation or "").startswith("Order.__init__"):
+        for c in ctor_cases():
+            n += 1
+            why = check_ctor(c)
+            if why:
+                return {"found": True, "input": c, "observed": {"function": "Order.__init__", "clause": why}, "witness_key": "Order.__init__|" + why[:30], "cases": n, "exhaustive_scope": True}
     for c in cases():
         n += 1
         why = check(c)
@@ -56,5 +89,5 @@ def search(seed, tier, obligation, hints):
 
 
 def replay(inp):
-    why = check(inp)
+    why = check_ctor(inp) if inp.get("ctor") else check(inp)
     return {"violated": bool(why), "clause": why}
